@@ -37,7 +37,8 @@ buf = io.StringIO()
 try:
     with contextlib.redirect_stdout(buf):
         if call[0] == 'sv':
-            r = U.schema_valid(call[1], getattr(jsonschema, call[2]), call[3])
+            V = getattr(jsonschema, call[2]) if not call[2].startswith('ext:') else jsonschema.validators.extend(getattr(jsonschema, call[2][4:]), {})
+            r = U.schema_valid(call[1], V, call[3])
         else:
             r = U.valid_against_schema(call[1], call[2], call[3])
     out = ['ret', r]
@@ -67,13 +68,25 @@ def fresh_outcomes(calls, cwds):
     return out
 
 
+_EXT = {}
+
+
+def validator_of(jsonschema, name):
+    """a validator class by name; 'ext:<name>' = a class derived from it with jsonschema.validators.extend (one object per process)"""
+    if not name.startswith('ext:'):
+        return getattr(jsonschema, name)
+    if name not in _EXT:
+        _EXT[name] = jsonschema.validators.extend(getattr(jsonschema, name[4:]), {})
+    return _EXT[name]
+
+
 def execute(U, jsonschema, call):
     """one real call in this process -> outcome tuple"""
     buf = io.StringIO()
     try:
         with contextlib.redirect_stdout(buf):
             if call[0] == 'sv':
-                r = U.schema_valid(call[1], getattr(jsonschema, call[2]), call[3])
+                r = U.schema_valid(call[1], validator_of(jsonschema, call[2]), call[3])
             else:
                 r = U.valid_against_schema(call[1], call[2], call[3])
         return ('ret', r)
